@@ -419,3 +419,34 @@ theorem every_wellformed_vm_is_rebased (vm : Mech.VM) (T I R S C : Nat)
   Mech.rebase_decompose vm T I R S C hS hC hI hR hf
 
 end GojaModel.C09
+
+namespace GojaModel.C09
+
+/-! ## `generator.step1`'s returning loop (repair 5eca78e) -/
+
+/-- An exception caught inside the generator while `returning` is set is transparent to the loop: any number of such
+come-backs, anywhere in the oracle, change nothing (the body just keeps running). -/
+theorem caught_exception_is_transparent_while_returning (g : Mech.Gen) (throwing : List Nat)
+    (pre rest : List (Mech.RunBack × Mech.VM)) (hpre : ∀ e ∈ pre, e.1 = .caught) :
+    Mech.step1Returning g throwing (pre ++ rest) = Mech.step1Returning g throwing rest := by
+  induction pre with
+  | nil => rfl
+  | cons e pre ih =>
+    obtain ⟨ev, vm⟩ := e
+    have h1 : ev = .caught := hpre (ev, vm) (by simp)
+    subst h1
+    simp only [List.cons_append, Mech.step1Returning]
+    exact ih (fun e he => hpre e (by simp [he]))
+
+/-- Regression lemma (old loop, before 5eca78e): the first caught come-back ended the step with a popped stack value
+taken for the result — never `returnCompleted`, whatever followed. -/
+theorem old_returning_loop_pops_garbage_prefix_witness (g : Mech.Gen) (throwing : List Nat) (vm : Mech.VM)
+    (rest : List (Mech.RunBack × Mech.VM)) :
+    (Mech.step1ReturningOld g throwing ((.caught, vm) :: rest)).1 ≠ .returnCompleted ∧
+    (Mech.step1ReturningOld g throwing ((.caught, vm) :: rest)).2 = some { vm with stack := vm.stack.dropLast } := by
+  simp only [Mech.step1ReturningOld]
+  constructor
+  · split <;> simp
+  · trivial
+
+end GojaModel.C09
